@@ -46,6 +46,13 @@ SaveProfile(u) == /\ Quiet /\ ~outage /\ prim[u] < MaxVer
                   /\ prim' = [prim EXCEPT ![u] = @ + 1]
                   /\ last' = [op |-> "save", user |-> u]
                   /\ UNCHANGED <<psig, pexp, mirr, msig, mexp, outage>> /\ UnchangedSync
+\* the very bytes of u's previous save are saved once more (the login path re-saving an unchanged profile, an administrator
+\* adding the same user again): a row that is there keeps its content, a row that was deleted meanwhile is back
+\* (content ids restart at 1 after a delete in this model)
+ResaveProfile(u) == /\ Quiet /\ ~outage
+                    /\ prim' = [prim EXCEPT ![u] = IF @ = 0 THEN 1 ELSE @]
+                    /\ last' = [op |-> "resave", user |-> u]
+                    /\ UNCHANGED <<psig, pexp, mirr, msig, mexp, outage>> /\ UnchangedSync
 DeleteProfile(u) == /\ Quiet /\ ~outage /\ prim[u] # 0
                     /\ prim' = [prim EXCEPT ![u] = 0]
                     /\ last' = [op |-> "delete", user |-> u]
@@ -131,7 +138,7 @@ MutatingRequestDuringOutage(u) ==
     /\ last' = [op |-> "mutate_offline", user |-> u]
     /\ UNCHANGED <<psig, pexp, mirr, msig, mexp, outage>> /\ UnchangedSync
 
-Next == \/ \E u \in Users : SaveProfile(u) \/ DeleteProfile(u) \/ UpsertSigned(u) \/ DeleteSigned(u) \/ ExpireSigned(u)
+Next == \/ \E u \in Users : SaveProfile(u) \/ ResaveProfile(u) \/ DeleteProfile(u) \/ UpsertSigned(u) \/ DeleteSigned(u) \/ ExpireSigned(u)
                             \/ SyncCopyU(u) \/ SyncCopyS(u) \/ MutatingRequestDuringOutage(u)
         \/ SyncBegin \/ SyncDeleteU \/ SyncDeleteS \/ SyncCommit \/ SyncFault \/ SyncAck \/ Cleanup \/ OutageBegins \/ OutageEnds
 Spec == Init /\ [][Next]_vars
